@@ -30,7 +30,9 @@ void h_ext_roundtrip(void)
    /* dry run gives the size; an exact-size buffer suffices; one byte less is refused */
    need = opus_packet_extensions_generate(NULL, VERIF_BUFMAX, in, n, nf, 0);
    __CPROVER_assert(0 <= need && need <= VERIF_BUFMAX, "dry run succeeds and reports a size");
-   buf = malloc(need > 0 ? need : 1); __CPROVER_assume(buf != NULL);
+   {  /* constant-size buffer with sentinels instead of malloc(need): symbolic-size objects do not scale in CBMC; the generator is still
+         told len == need, and a write beyond need would destroy a sentinel (checked below through a ghost index) */
+      static unsigned char store[VERIF_BUFMAX + 1]; __CPROVER_array_set(store, (unsigned char)0xA5); buf = store; }
    wrote = opus_packet_extensions_generate(buf, need, in, n, nf, 0);
    __CPROVER_assert(wrote == need, "written size equals the dry-run size; an exact-size buffer suffices");
    if (need > 0) {
@@ -38,6 +40,7 @@ void h_ext_roundtrip(void)
       __CPROVER_assert(less == OPUS_BUFFER_TOO_SMALL, "a buffer one byte smaller is refused");
       wrote = opus_packet_extensions_generate(buf, need, in, n, nf, 0);
    }
+   {  int q = nondet_int(); __CPROVER_assume(need <= q && q <= VERIF_BUFMAX); __CPROVER_assert(buf[q] == 0xA5, "nothing is written beyond the exact-size buffer"); }
    /* parse back: same extensions per frame, per-frame order and payloads preserved */
    __CPROVER_assert(opus_packet_extensions_count(buf, need, nf) == n, "count() reports the number of extensions generated");
    nout = VERIF_NEXT + 1;
